@@ -278,8 +278,11 @@ static inline int spec_own_rule_applies (const spec_rule *r, const char *name)
   return spec_streq (name, r->own_name) ? SPEC_YES : SPEC_NO;
 }
 
-/* Known differences between the man page text above and what bus/policy.c does (each is checked by
- * its own unit, which is expected to be red until triaged):
+/* Known differences between the man page text above and what bus/policy.c does.  Each is carried by its
+ * own unit (C06.{send,recv}_n1.gapG1/.gapG2), red on the pinned tree; these units have role 'finder' (not
+ * part of the check) until triaged -- run them with VERIF_RUN_GAPS=1 ./verif check C06 --unit <name>.
+ * G2 replays natively (replay/c06_native_gap_g2.sh); G1 is a documentation gap the shipped session.conf
+ * relies on (<allow send_destination="*" eavesdrop="true"/> is what lets unrequested replies through).
  *  G1  <allow ... eavesdrop="true"> with (default) requested_reply="true" and an UNrequested reply:
  *      man page: "only requested replies are allowed by the rule"; nothing says eavesdrop="true"
  *      lifts that.
